@@ -311,6 +311,24 @@ func checkC07(c c07Case, rec *Rec) *Violation {
 			return res
 		}
 	}
+	// with a $urlblock AND a $genericblock exception on the referrer (two document-level rules of equal rank, in either
+	// order): every blocking candidate leaves the field, whichever of the two is listed first
+	ub, _ := rules.NewNetworkRule("@@||a.com^$urlblock", 9)
+	var eff3Texts []string
+	for i := range eff {
+		if c07Rank(effTexts[i])[0]%2 == 1 {
+			eff3Texts = append(eff3Texts, effTexts[i])
+		}
+	}
+	for _, src := range [][]*rules.NetworkRule{{gb, ub}, {ub, gb}} {
+		w := rules.NewMatchingResult(append([]*rules.NetworkRule{}, all...), src).BasicRule
+		switch {
+		case w == nil && len(eff3Texts) > 0:
+			return viol(id, "C07:no-winner:urlblock-referrer", "referrer under %q: no basic rule for candidates %q although the exceptions %q remain", netTexts(src), c.Rules, eff3Texts)
+		case w != nil && !inList(w.Text(), eff3Texts):
+			return viol(id, "C07:winner-not-a-candidate:urlblock-referrer", "referrer under %q: selected %q, which is not among the remaining candidates %q (of %q)", netTexts(src), w.Text(), eff3Texts, c.Rules)
+		}
+	}
 	permutations(len(all), func(p []int) bool {
 		nperm++
 		cand := make([]*rules.NetworkRule, len(p))
@@ -509,6 +527,26 @@ func TestC07(t *testing.T) {
 		}
 		rec.EvalN(len(drs) * len(drs))
 		rec.LabelN("document_level_pairs_exhaustive", len(drs)*len(drs))
+		// every document-level exception against every rule of the main pool of ANOTHER verdict class (important
+		// exception > important block > exception > block), both directions; within a class the two pools count
+		// their modifiers differently, so only the class order is compared here
+		crossPairs := 0
+		for i := range drs {
+			for j := range rs {
+				if dranks[i][0] == ranks[j][0] {
+					continue
+				}
+				crossPairs += 2
+				g, h := drs[i].IsHigherPriority(rs[j]), rs[j].IsHigherPriority(drs[i])
+				if g != (dranks[i][0] > ranks[j][0]) || h != (ranks[j][0] > dranks[i][0]) {
+					if rf := fail(c07Case{Rules: []string{dtexts[i], texts[j]}}); rf != nil {
+						return rf
+					}
+				}
+			}
+		}
+		rec.EvalN(crossPairs)
+		rec.LabelN("document_level_against_pool_pairs_exhaustive", crossPairs)
 		// adding a modifier makes the rule strictly higher
 		index := map[string]int{}
 		for i, s := range texts {
